@@ -333,7 +333,14 @@ func (o *structFieldsCBOR) FromCBOR(dm cbor.DecMode, data []byte) error {
 	}
 
 	if mapLen != 0 {
-		o.Fields = make(map[int]cbor.RawMessage, mapLen)
+		// every entry takes at least two bytes: do not let a declared
+		// length reserve memory for entries that cannot be present
+		sizeHint := mapLen
+		if sizeHint > len(rest)/2 {
+			sizeHint = len(rest) / 2
+		}
+
+		o.Fields = make(map[int]cbor.RawMessage, sizeHint)
 
 		for i := 0; i < mapLen; i++ {
 			rest, err = o.unmarshalKeyValue(dm, rest)
